@@ -13,6 +13,11 @@ MUTATIONS = {
         ('set_publisher writes the composer column', E + 'v2/track_impl.cpp', 'track_.set_label(id(), publisher);', 'track_.set_composer(id(), publisher);', 'track_impl::set_publisher', r'ensures (only_its_columns|stored)'),
         ('set_hot_cue_at writes the slot after the index', E + 'v2/track_impl.cpp', 'quick_cues.quick_cues[index] = convert::write::hot_cue(cue);', 'quick_cues.quick_cues[(index + 1) % quick_cues.quick_cues.size()] = convert::write::hot_cue(cue);', 'track_impl::set_hot_cue_at', r'ensures (stored|other_slots_kept)'),
         ('set_main_cue clears the cue slots', E + 'v2/track_impl.cpp', '    quick_cues.is_main_cue_adjusted = true;\n', '    quick_cues.is_main_cue_adjusted = true;\n    quick_cues.quick_cues.clear();\n', 'track_impl::set_main_cue', r'ensures cue_slots_kept'),
+        ('1.x set_main_cue drops the hot cues', E + 'v1/engine_track_impl.cpp', '    quick_cues_d.default_main_cue = sample_offset.value_or(0);\n', '    quick_cues_d.default_main_cue = sample_offset.value_or(0);\n    quick_cues_d.hot_cues.clear();\n', 'v1::engine_track_impl::set_main_cue', r'ensures cue_slots_kept'),
+        ('1.x set_hot_cue_at overwrites the neighbouring slot too', E + 'v1/engine_track_impl.cpp', '    quick_cues_d.hot_cues[index] = std::move(cue);\n', '    quick_cues_d.hot_cues[index] = std::move(cue);\n    if (index > 0) quick_cues_d.hot_cues[index - 1] = std::nullopt;\n', 'v1::engine_track_impl::set_hot_cue_at', r'ensures other_slots_kept'),
+        ('1.x set_loops pads to seven slots', E + 'v1/engine_track_impl.cpp', '    if (loops_d.loops.size() < 8)\n        loops_d.loops.resize(8);', '    if (loops_d.loops.size() < 7)\n        loops_d.loops.resize(7);', 'v1::engine_track_impl::set_loops', r'ensures padded'),
+        ('1.x set_average_loudness forgets the stored key', E + 'v1/engine_track_impl.cpp', '        average_loudness.value_or(0) == 0 ? std::nullopt : average_loudness;\n', '        average_loudness.value_or(0) == 0 ? std::nullopt : average_loudness;\n    track_d.key = std::nullopt;\n', 'v1::engine_track_impl::set_average_loudness', r'ensures rest_of_track_data'),
+        ('1.x beatgrid() returns the default grid', E + 'v1/engine_track_impl.cpp', '    return std::move(beat_d.adjusted_beatgrid);', '    return std::move(beat_d.default_beatgrid);', 'v1::engine_track_impl::beatgrid', r'ensures (size|marker)'),
         ('year() reads the play order', E + 'v2/track_impl.cpp', 'optional_static_cast<int>(track_.get_year(id()))', 'optional_static_cast<int>(track_.get_play_order(id()))', 'track_impl::year', r'ensures value'),
     ],
     'C01': [
@@ -53,6 +58,9 @@ MUTATIONS = {
     ],
     'C04': [
         ('last trailing byte dropped', E + 'encode_decode_utils.hpp', 'extra_data.resize(end - ptr);', 'extra_data.resize(end - ptr > 0 ? end - ptr - 1 : 0);', 'decode_extra', r'ensures (size|consumes_all)'),
+        ('set_loops writes a freshly built loops blob (trailing bytes of the stored one dropped)', E + 'v2/track_impl.cpp', '    loops_blob.loops = convert::write::loops(loops).loops;\n', '    loops_blob = convert::write::loops(loops);\n', 'track_impl::set_loops', r'ensures extra_kept'),
+        ('set_main_cue clears the trailing bytes of the quick-cues blob', E + 'v2/track_impl.cpp', '    quick_cues.is_main_cue_adjusted = true;\n', '    quick_cues.is_main_cue_adjusted = true;\n    quick_cues.extra_data.clear();\n', 'track_impl::set_main_cue', r'ensures cue_slots_kept'),
+        ('set_average_loudness flips the first trailing byte of the track-data blob', E + 'v2/track_impl.cpp', '    track_data.average_loudness_high = converted;\n', '    track_data.average_loudness_high = converted;\n    if (!track_data.extra_data.empty()) track_data.extra_data[0] = std::byte{0};\n', 'track_impl::set_average_loudness', r'ensures rest_of_blob'),
         ('loop flags normalised on decode', E + 'v2/loops_blob.cpp', 'std::tie(loop.is_start_set, ptr) = decode_uint8(ptr);', 'std::tie(loop.is_start_set, ptr) = decode_uint8(ptr);\n        loop.is_start_set = loop.is_start_set ? 1 : 0;', 'v2::loops_blob::from_blob#loop0', r'ensures flags'),
     ],
     'C15': [
@@ -66,7 +74,10 @@ def main():
     pid = sys.argv[1]
     out = []
     base = '/var/tmp/verif_sens_%s_%d' % (pid, os.getpid())
+    sel = os.environ.get('VERIF_SENS_ONLY')       # development aid: run only the mutations whose name contains this text
     for name, f, old, new, only, expect in MUTATIONS.get(pid, []):
+        if sel and sel not in name:
+            continue
         shutil.rmtree(base, ignore_errors=True)
         os.makedirs(base)
         try:
